@@ -107,6 +107,24 @@ def rule_twin(chk):
         chk.decide(stored <= declared, 'compiled-twin', name + ':attributes', node=cc, file=CK, func=name,
                    detail_bad='attributes %s set by the Python kernel are not declared in the compiled class (Cls(**kernel.__dict__) fails)' % sorted(stored - declared),
                    detail_ok=str(sorted(stored)))
+        # attribute types: Cls(**kernel.__dict__) converts each value to the declared C type, so an attribute declared as an integer must be
+        # integral for every dimension the kernel supports (a long silently truncates 1.5 to 1)
+        decl_t = dict((U(s_.target), (s_.annotation.value if isinstance(s_.annotation, ast.Constant) else U(s_.annotation))) for s_ in cc.body if isinstance(s_, ast.AnnAssign))
+        trunc = []
+        for dim in supported_dims(pc):
+            try:
+                at_ = attrs_of(pc, dim)
+            except ValueError:
+                at_ = {}
+            for k_, v_ in at_.items():
+                ty = decl_t.get(k_, 'double')
+                integral = any(w in str(ty).split() for w in ('long', 'int', 'short', 'bint', 'char')) and not any(w in str(ty) for w in ('double', 'float'))
+                if integral and not (v_.is_const() and v_.const_value().denominator == 1):
+                    trunc.append((k_, ty, dim, str(v_)))
+        chk.decide(not trunc, 'compiled-twin', name + ':attribute-types', node=cc, file=CK, func=name,
+                   detail_bad='compiled attribute %s is declared `%s` but the Python kernel sets it to %s for dim=%s: the compiled twin computes with the truncated value'
+                              % ((trunc[0][0], trunc[0][1], trunc[0][3], trunc[0][2]) if trunc else ('', '', '', '')),
+                   detail_ok='integer-typed attributes hold integers for every supported dimension')
         # wrapper
         wc = cyk.get(name + 'Wrapper')
         if wc is not None:
@@ -443,52 +461,54 @@ def radius_scale_of(cls):
 
 
 def rule_cutoff(chk, pyk):
+    """The set of q on which each method can return a non-zero value is exactly [0, radius_scale) (polynomial kernels may include the
+    edge, where they vanish by themselves): computed from the branch tests as exact interval sets, so one-sided, two-sided, chained and
+    negated spellings of the tests are all the same to the rule."""
+    fresh = ast.parse(M.read(KER))
+    fk = dict((c.name, c) for c in kernel_classes(fresh))
     for name, cls in sorted(pyk.items()):
         rs = radius_scale_of(cls)
         if rs is None:
             chk.undecided('cutoff-agreement', name, node=cls, file=KER, func=name, detail='radius_scale is not a literal')
             continue
+        rsf = Fraction(str(rs))
         for m in ('kernel', 'dwdq', 'gradient_h'):
             fn = M.methods(cls).get(m)
-            consts = []
-            for c in ast.walk(fn):
-                if isinstance(c, ast.Compare) and len(c.ops) == 1 and compact(c.left) == 'q' and isinstance(c.comparators[0], ast.Constant):
-                    consts.append((float(c.comparators[0].value), c))
-            if not consts:
-                chk.violated('cutoff-agreement', '%s.%s' % (name, m), node=fn, file=KER, func='%s.%s' % (name, m),
-                             detail='no comparison of q with the support radius: the kernel is not compactly supported')
+            try:
+                leaves = qleaves(M.methods(fk[name])[m], keep_r0=False)
+                bps = breakpoints(leaves)
+                mp = merged_pieces(leaves, bps)
+            except (ValueError, KeyError) as e:
+                chk.undecided('cutoff-agreement', '%s.%s' % (name, m), node=fn, file=KER, func='%s.%s' % (name, m), detail='piece extraction failed: %s' % e)
                 continue
-            top = max(consts, key=lambda x: x[0])
-            chk.decide(top[0] == rs, 'cutoff-agreement', '%s.%s' % (name, m), node=top[1], file=KER, func='%s.%s' % (name, m),
-                       detail_bad='outermost cut-off on q is %g but radius_scale is %g: neighbours are searched up to radius_scale*h' % (top[0], rs),
+
+            def nonzero(e):
+                pz = to_poly(e) if e is not None else None
+                return pz is None or not pz.is_zero()
+            nz = [(lo, hi) for lo, hi, e in mp if nonzero(e)]
+            if not nz or any(hi is None for lo, hi in nz):
+                chk.violated('cutoff-agreement', '%s.%s' % (name, m), node=fn, file=KER, func='%s.%s' % (name, m),
+                             detail='the method is non-zero for arbitrarily large q (%s): the kernel is not compactly supported'
+                                    % ', '.join(iv_label(lo, hi) for lo, hi in nz if hi is None) if nz else 'the method is zero everywhere')
+                continue
+            top = max(hi for lo, hi in nz)
+            chk.decide(top == rsf, 'cutoff-agreement', '%s.%s' % (name, m), node=fn, file=KER, func='%s.%s' % (name, m),
+                       detail_bad='the method is non-zero up to q = %g but radius_scale is %g: neighbours are searched up to radius_scale*h' % (float(top), rs),
                        detail_ok='q cut-off %g == radius_scale' % rs)
-            # beyond the cut-off the value is zero
-            cmpn = top[1]
-            iff = M.enclosing(cmpn, (ast.If,))
-            zero_ok = False
-            if iff is not None and isinstance(cmpn.ops[0], (ast.Gt, ast.GtE)):
-                # `if q > R: val = 0.0`
-                zero_ok = all(isinstance(b, ast.Assign) and isinstance(b.value, ast.Constant) and float(b.value.value) == 0.0 for b in iff.body)
-            elif iff is not None and isinstance(cmpn.ops[0], (ast.Lt, ast.LtE)):
-                # `val = 0.0; if q < R: val = ...`
-                tg = set(U(b.targets[0]) for b in iff.body if isinstance(b, ast.Assign)) | \
-                    set(U(b.targets[0]) for x in iff.body if isinstance(x, ast.If) for b in x.body if isinstance(b, ast.Assign))
-                later = set(x.id for st in fn.body if st.lineno > iff.lineno for x in ast.walk(st) if isinstance(x, ast.Name))
-                tg &= later
-                pre = [a for a in fn.body if isinstance(a, ast.Assign) and a.lineno < iff.lineno and U(a.targets[0]) in tg
-                       and isinstance(a.value, ast.Constant) and float(a.value.value) == 0.0]
-                zero_ok = len(set(U(a.targets[0]) for a in pre)) == len(tg) and not iff.orelse
-            chk.decide(zero_ok, 'cutoff-agreement', '%s.%s:zero-outside' % (name, m), node=iff or fn, file=KER, func='%s.%s' % (name, m),
-                       detail_bad='the value beyond the cut-off is not identically zero', detail_ok='0 beyond the cut-off')
-            # kernels whose formula does not vanish at the edge by itself (exponential family) must exclude q == radius_scale from the non-zero branch:
+            # beyond the cut-off the value is zero: every piece above radius_scale and the break points above it
+            beyond = [(lo, hi) for lo, hi in nz if lo >= rsf]
+            ptsbad = [x for x in bps if x > rsf and leaf_at_point(leaves, x) is not None and nonzero(leaf_at_point(leaves, x)[1])]
+            chk.decide(not beyond and not ptsbad, 'cutoff-agreement', '%s.%s:zero-outside' % (name, m), node=fn, file=KER, func='%s.%s' % (name, m),
+                       detail_bad='the value beyond the cut-off is not identically zero (%s)' % (beyond or ptsbad), detail_ok='0 beyond the cut-off')
+            # kernels whose formula does not vanish at the edge by itself (exponential family) must put q == radius_scale in the zero branch:
             # the property asks for W = 0 (and zero gradient) for r >= radius_scale*h
-            body_src = ' '.join(U(x) for x in fn.body)
-            if 'exp(' in body_src:
-                op = cmpn.ops[0]
-                zero_at_edge = isinstance(op, (ast.GtE, ast.Lt))      # `if q >= R: 0`  or  `if q < R: value` (zero otherwise)
-                chk.decide(zero_at_edge, 'cutoff-agreement', '%s.%s:zero-at-the-edge' % (name, m), node=cmpn, file=KER, func='%s.%s' % (name, m),
-                           detail_bad='`%s` leaves q == %g in the non-zero branch: this kernel does not vanish there by itself (exp(-%g^2) != 0), so W / dW are non-zero exactly at r = radius_scale*h'
-                                      % (U(cmpn), rs, rs), detail_ok='q == %g is in the zero branch' % rs)
+            inner = [e for lo, hi, e in mp if hi == rsf]
+            pin = to_poly(inner[0]) if inner and inner[0] is not None else None
+            if pin is not None and any(a_.startswith('EXP{') for a_ in pin.atoms()):
+                at = leaf_at_point(leaves, rsf)
+                chk.decide(at is not None and not nonzero(at[1]), 'cutoff-agreement', '%s.%s:zero-at-the-edge' % (name, m), node=fn, file=KER, func='%s.%s' % (name, m),
+                           detail_bad='q == %g is in the non-zero branch: this kernel does not vanish there by itself (exp(-%g^2) != 0), so W / dW are non-zero exactly at r = radius_scale*h'
+                                      % (rs, rs), detail_ok='q == %g is in the zero branch' % rs)
 
 
 def rule_gradient_form(chk, pyk):
@@ -592,6 +612,7 @@ def pieces(fn):
                 env[s.target.id] = ast.BinOp(left=env[s.target.id], op=s.op, right=subst(s.value, env))
             elif isinstance(s, ast.If):
                 t = compact(subst(s.test, env))
+                COND_AST[t] = subst(s.test, env)
                 if t.startswith('self.dim=='):
                     env = dict(env)
                     env['fac'] = ast.Name(id='FAC', ctx=ast.Load())
@@ -630,6 +651,8 @@ def to_poly(e):
             return Poly.var('DIM')
         if isinstance(x, ast.Attribute) and compact(x) == 'self.fac':
             return Poly.var('SELF_FAC')
+        if isinstance(x, ast.Attribute) and isinstance(x.value, ast.Name) and x.value.id == 'self':
+            return Poly.var('SELF_' + x.attr)          # a constant of the kernel instance (set by __init__, see attrs_of)
         if isinstance(x, ast.BinOp) and isinstance(x.op, ast.Div):
             a, b = conv(x.left), conv(x.right)
             if a is None or b is None:
@@ -697,13 +720,223 @@ def ddq(p, ed):
     return out
 
 
+
+# -- sets of q values described by the branch tests (exact, rational end points) ------------------------------------------------
+COND_AST = {}
+INF = None
+
+
+def _iv_norm(ivs):
+    """sorted, merged list of (lo, lo_closed, hi, hi_closed); hi None = +inf; empty intervals dropped"""
+    out = []
+    for lo, lc, hi, hc in sorted(ivs, key=lambda t: (t[0], not t[1])):
+        if hi is not None and (lo > hi or (lo == hi and not (lc and hc))):
+            continue
+        if out:
+            plo, plc, phi, phc = out[-1]
+            if phi is None or lo < phi or (lo == phi and (phc or lc)):
+                nhi, nhc = (None, False) if (phi is None or hi is None) else ((phi, phc or (hc and hi == phi)) if phi >= hi else (hi, hc))
+                if phi is not None and hi is not None and phi == hi:
+                    nhc = phc or hc
+                out[-1] = (plo, plc, nhi, nhc)
+                continue
+        out.append((lo, lc, hi, hc))
+    return out
+
+
+def iv_and(a, b):
+    out = []
+    for lo1, lc1, hi1, hc1 in a:
+        for lo2, lc2, hi2, hc2 in b:
+            if lo1 > lo2 or (lo1 == lo2 and not lc1):
+                lo, lc = lo1, lc1 and (lc2 if lo1 == lo2 else True)
+            else:
+                lo, lc = lo2, lc2 and (lc1 if lo1 == lo2 else True)
+            if hi1 is None:
+                hi, hc = hi2, hc2
+            elif hi2 is None:
+                hi, hc = hi1, hc1
+            elif hi1 < hi2 or (hi1 == hi2 and not hc1):
+                hi, hc = hi1, hc1 and (hc2 if hi1 == hi2 else True)
+            else:
+                hi, hc = hi2, hc2 and (hc1 if hi1 == hi2 else True)
+            out.append((lo, lc, hi, hc))
+    return _iv_norm(out)
+
+
+def iv_not(a):
+    """complement within [0, inf)"""
+    out = []
+    cur, curc = Fraction(0), True          # next candidate start, closed?
+    done = False
+    for lo, lc, hi, hc in _iv_norm(a):
+        out.append((cur, curc, lo, not lc))
+        if hi is None:
+            done = True
+            break
+        cur, curc = hi, not hc
+    if not done:
+        out.append((cur, curc, None, False))
+    return _iv_norm(out)
+
+
+def iv_or(a, b):
+    return _iv_norm(list(a) + list(b))
+
+
+FULL = [(Fraction(0), True, None, False)]
+
+
+def qset_of(test):
+    """the set of q >= 0 on which a branch test holds, or None when the test is not about q and constants alone"""
+    def num(x):
+        if isinstance(x, ast.Constant) and isinstance(x.value, (int, float)) and not isinstance(x.value, bool):
+            return Fraction(str(x.value))
+        if isinstance(x, ast.UnaryOp) and isinstance(x.op, ast.USub):
+            v = num(x.operand)
+            return None if v is None else -v
+        return None
+
+    def simple(l, op, r):
+        lq, rq = isinstance(l, ast.Name) and l.id == 'q', isinstance(r, ast.Name) and r.id == 'q'
+        if lq == rq:
+            a, b = num(l), num(r)
+            if a is None or b is None:
+                return None
+            ok = {'Lt': a < b, 'LtE': a <= b, 'Gt': a > b, 'GtE': a >= b, 'Eq': a == b, 'NotEq': a != b}.get(type(op).__name__)
+            return None if ok is None else (FULL if ok else [])
+        c = num(r if lq else l)
+        if c is None:
+            return None
+        name = type(op).__name__
+        if rq:
+            name = {'Lt': 'Gt', 'LtE': 'GtE', 'Gt': 'Lt', 'GtE': 'LtE'}.get(name, name)
+        if name == 'Gt':
+            res = [(c, False, None, False)]
+        elif name == 'GtE':
+            res = [(c, True, None, False)]
+        elif name == 'Lt':
+            res = [(Fraction(0), True, c, False)]
+        elif name == 'LtE':
+            res = [(Fraction(0), True, c, True)]
+        elif name == 'Eq':
+            res = [(c, True, c, True)]
+        elif name == 'NotEq':
+            return iv_not([(c, True, c, True)])
+        else:
+            return None
+        return iv_and(FULL, [(max(lo, Fraction(0)), lc if lo >= 0 else True, hi, hc) for lo, lc, hi, hc in res])
+    if isinstance(test, ast.Compare):
+        cur = FULL
+        left = test.left
+        for op, right in zip(test.ops, test.comparators):
+            s1 = simple(left, op, right)
+            if s1 is None:
+                return None
+            cur = iv_and(cur, s1)
+            left = right
+        return cur
+    if isinstance(test, ast.BoolOp):
+        parts = [qset_of(v) for v in test.values]
+        if any(p_ is None for p_ in parts):
+            return None
+        cur = parts[0]
+        for p_ in parts[1:]:
+            cur = iv_and(cur, p_) if isinstance(test.op, ast.And) else iv_or(cur, p_)
+        return cur
+    if isinstance(test, ast.UnaryOp) and isinstance(test.op, ast.Not):
+        p_ = qset_of(test.operand)
+        return None if p_ is None else iv_not(p_)
+    return None
+
+
+def qdomain(conds):
+    """the q values on which a leaf of the if-tree is taken (tests that are not about q are ignored)"""
+    cur = FULL
+    for t, v in conds:
+        qs = qset_of(COND_AST[t]) if t in COND_AST else None
+        if qs is None:
+            continue
+        cur = iv_and(cur, qs if v else iv_not(qs))
+    return cur
+
+
+def is_r0(conds):
+    return any(t.startswith('rij') and not v for t, v in conds)
+
+
+def qleaves(fn, keep_r0=False):
+    """[(domain, return expression)] of the leaves of a kernel method"""
+    out = []
+    for conds, env in pieces(fn):
+        if is_r0(conds) and not keep_r0:
+            continue
+        dom = qdomain(conds)
+        if dom:
+            out.append((dom, env.get('<return>'), conds))
+    return out
+
+
+def breakpoints(*leaflists):
+    b = set([Fraction(0)])
+    for ll in leaflists:
+        for dom, _e, _c in ll:
+            for lo, lc, hi, hc in dom:
+                b.add(lo)
+                if hi is not None:
+                    b.add(hi)
+    return sorted(b)
+
+
+def leaf_at_point(leaves, x):
+    for dom, e, c in leaves:
+        for lo, lc, hi, hc in dom:
+            if (lo < x or (lo == x and lc)) and (hi is None or x < hi or (x == hi and hc)):
+                return (dom, e, c)
+    return None
+
+
+def leaf_on_open(leaves, a, b):
+    """leaf that covers the open interval (a, b); b None = +inf"""
+    for dom, e, c in leaves:
+        for lo, lc, hi, hc in dom:
+            if lo <= a and (hi is None or (b is not None and b <= hi)):
+                return (dom, e, c)
+    return None
+
+
+def open_atoms(bps):
+    return [(bps[i], bps[i + 1] if i + 1 < len(bps) else None) for i in range(len(bps))]
+
+
+def merged_pieces(leaves, bps=None):
+    """[(lo, hi, expr)] - maximal open intervals on which one leaf applies (hi None = +inf)"""
+    bps = bps or breakpoints(leaves)
+    out = []
+    for a, b in open_atoms(bps):
+        lf = leaf_on_open(leaves, a, b)
+        if lf is None:
+            raise ValueError('no branch covers %s < q < %s' % (a, b))
+        if out and out[-1][2] is lf[1] and out[-1][1] == a:
+            out[-1] = (out[-1][0], b, lf[1])
+        else:
+            out.append((a, b, lf[1]))
+    return out
+
+
+def iv_label(a, b):
+    return '%s<q<%s' % (float(a), 'inf' if b is None else float(b))
+
+
 def qkey(conds):
     return tuple((t, v) for t, v in conds if t.startswith('q'))
 
 
 def rule_algebra(chk, pyk):
-    """On every piece of the partition of q: dwdq == d(kernel)/dq and gradient_h == -h1*(DIM*kernel + q*dwdq) (= dW/dh);
-    polynomial kernels are continuous at their knots and vanish at the support edge."""
+    """On every piece of the common refinement of the q-partitions of kernel / dwdq / gradient_h: dwdq == d(kernel)/dq and
+    gradient_h == -h1*(DIM*kernel + q*dwdq) (= dW/dh); at every break point the value taken *at* the point agrees with the
+    pieces on both sides (polynomial kernels: continuity at the knots, zero at the support edge, no point that falls through to
+    another branch); the r == 0 alternative of a method equals its formula at q = 0."""
     n = 0
     # a parent-free parse: the piece extraction deep-copies sub-expressions
     fresh = ast.parse(M.read(KER))
@@ -711,80 +944,130 @@ def rule_algebra(chk, pyk):
     for name, cls in sorted(pyk.items()):
         ms = M.methods(cls)
         try:
-            tab = {}
-            for m in ('kernel', 'dwdq', 'gradient_h'):
-                d = {}
-                for conds, env in pieces(ms[m]):
-                    if any((t.startswith('rij') and not v) for t, v in conds):
-                        continue            # the r == 0 alternative
-                    d[qkey(conds)] = env.get('<return>')
-                tab[m] = d
+            L = dict((m, qleaves(ms[m])) for m in ('kernel', 'dwdq', 'gradient_h'))
+            R0 = dict((m, [x for x in qleaves(ms[m], keep_r0=True) if is_r0(x[2])]) for m in ('kernel', 'dwdq', 'gradient_h'))
+            bps = breakpoints(L['kernel'], L['dwdq'], L['gradient_h'])
+            merged = []
+            for a_, b_ in open_atoms(bps):
+                tr = tuple(leaf_on_open(L[m], a_, b_) for m in ('kernel', 'dwdq', 'gradient_h'))
+                if None in tr:
+                    raise ValueError('no branch of %s covers %s < q < %s' % (('kernel', 'dwdq', 'gradient_h')[tr.index(None)], a_, b_))
+                ex = tuple(x[1] for x in tr)
+                if merged and merged[-1][1] == a_ and all(x is y for x, y in zip(merged[-1][2], ex)):
+                    merged[-1] = (merged[-1][0], b_, ex)
+                else:
+                    merged.append((a_, b_, ex))
         except (ValueError, KeyError) as e:
             chk.undecided('sibling-algebra', name + ':pieces', node=cls, file=KER, func=name, detail='piece extraction failed: %s' % e)
             continue
-        kq, dq, gq = tab['kernel'], tab['dwdq'], tab['gradient_h']
-        if not (set(kq) == set(dq) == set(gq)):
-            chk.violated('sibling-algebra', name + ':same-partition', node=ms['dwdq'], file=KER, func=name,
-                         detail='kernel, dwdq and gradient_h split q differently: %s / %s / %s' % (sorted(kq), sorted(dq), sorted(gq)))
-            continue
-        for qc in sorted(kq):
-            lab = ','.join('%s%s' % ('' if v else 'not ', t) for t, v in qc) or 'all q'
-            pk, pd, pg = [to_poly(x) if x is not None else None for x in (kq[qc], dq[qc], gq[qc])]
+        polys = {}
+        for a_, b_, ex in merged:
+            lab = iv_label(a_, b_)
+            pk, pd, pg = [to_poly(x) if x is not None else None for x in ex]
             if None in (pk, pd, pg):
                 chk.undecided('sibling-algebra', '%s@%s' % (name, lab), node=ms['kernel'], file=KER, func=name, detail='piece not polynomial/exponential in q')
                 continue
+            polys[(a_, b_)] = (pk, pd, pg)
             ed = exp_derivs([pk, pd, pg])
             want = ddq(pk, ed) if ed is not None else None
             if want is None:
                 chk.undecided('sibling-algebra', '%s@%s' % (name, lab), node=ms['kernel'], file=KER, func=name, detail='cannot differentiate piece')
                 continue
             n += 2
-            diff = want - pd
-            chk.decide(diff.is_zero(), 'sibling-algebra', '%s:dwdq=dW/dq@%s' % (name, lab), node=ms['dwdq'], file=KER, func=name + '.dwdq',
-                       detail_bad='on this piece dwdq = %s but d(kernel)/dq = %s' % (pd, want), detail_ok='dwdq == d(kernel)/dq')
             wanth = -(Poly.var('h1') * (Poly.var('DIM') * pk + Poly.var('q') * pd))
+            diff = want - pd
             diffh = wanth - pg
+            own = sorted(a for x in (diff, diffh) for a in x.atoms() if a.startswith('SELF_') and a != 'SELF_FAC')
+            if own:
+                # constants precomputed by __init__ per dimension (self.<name>): the identities are checked for every supported dimension with
+                # the values __init__ assigns
+                bad_d = bad_h = None
+                for dim in supported_dims(M.find_class(M.py(KER), name)):
+                    try:
+                        at_ = attrs_of(cls, dim)
+                    except ValueError:
+                        at_ = {}
+                    sub = dict(('SELF_' + k_, v_) for k_, v_ in at_.items())
+                    sub['DIM'] = Poly.const(dim)
+                    sub = dict((k_, v_) for k_, v_ in sub.items() if k_ != 'SELF_fac')
+                    d1, d2 = diff.subs(sub), diffh.subs(sub)
+                    if any(a.startswith('SELF_') and a != 'SELF_FAC' for a in d1.atoms() | d2.atoms()):
+                        bad_d = bad_h = 'undecided'
+                        break
+                    if not d1.is_zero() and bad_d is None:
+                        bad_d = (dim, d1)
+                    if not d2.is_zero() and bad_h is None:
+                        bad_h = (dim, d2)
+                if bad_d == 'undecided':
+                    n -= 2
+                    chk.undecided('sibling-algebra', '%s@%s' % (name, lab), node=ms['kernel'], file=KER, func=name, detail='instance constants %s are not numbers set by __init__' % own)
+                    continue
+                chk.decide(bad_d is None, 'sibling-algebra', '%s:dwdq=dW/dq@%s' % (name, lab), node=ms['dwdq'], file=KER, func=name + '.dwdq',
+                           detail_bad='on %s, dim=%s: d(kernel)/dq - dwdq = %s' % ((lab,) + (bad_d or (None, None))), detail_ok='dwdq == d(kernel)/dq for every supported dimension')
+                chk.decide(bad_h is None, 'sibling-algebra', '%s:gradient_h=dW/dh@%s' % (name, lab), node=ms['gradient_h'], file=KER, func=name + '.gradient_h',
+                           detail_bad='on %s, dim=%s: dW/dh - gradient_h = %s' % ((lab,) + (bad_h or (None, None))), detail_ok='gradient_h == dW/dh for every supported dimension')
+                continue
+            chk.decide(diff.is_zero(), 'sibling-algebra', '%s:dwdq=dW/dq@%s' % (name, lab), node=ms['dwdq'], file=KER, func=name + '.dwdq',
+                       detail_bad='on %s dwdq = %s but d(kernel)/dq = %s' % (lab, pd, want), detail_ok='dwdq == d(kernel)/dq')
             chk.decide(diffh.is_zero(), 'sibling-algebra', '%s:gradient_h=dW/dh@%s' % (name, lab), node=ms['gradient_h'], file=KER,
                        func=name + '.gradient_h',
-                       detail_bad='on this piece gradient_h = %s but dW/dh = -(1/h)*(dim*W + q*dW/dq) = %s (difference %s)' % (pg, wanth, diffh),
+                       detail_bad='on %s gradient_h = %s but dW/dh = -(1/h)*(dim*W + q*dW/dq) = %s (difference %s)' % (lab, pg, wanth, diffh),
                        detail_ok='gradient_h == dW/dh')
-        # knots: continuity and zero at the support edge (polynomial pieces)
+        # break points: the value taken at the point itself and the pieces on both sides
         rs = radius_scale_of(cls)
-        knots = set()
-        for qc in kq:
-            for t, v in qc:
-                try:
-                    knots.add(float(t[2:].lstrip('=')))
-                except ValueError:
-                    pass
-
-        def piece_at(x):
-            for qc, e in kq.items():
-                good = True
-                for t, v in qc:
-                    c = float(t[2:].lstrip('='))
-                    holds = x > c if t[1] == '>' else x < c
-                    if holds != v:
-                        good = False
-                if good:
-                    return e
-            return None
-        for kx in sorted(knots):
-            l, r = piece_at(kx - 1e-9), piece_at(kx + 1e-9)
-            if l is None or r is None:
-                continue
-            pl, pr = to_poly(l), to_poly(r)
-            if pl is None or pr is None:
-                continue
-            if any(a.startswith('EXP{') for a in pl.atoms() | pr.atoms()):
-                chk.note('%s: the value at q=%g is the truncation of an exponential tail; continuity there is not claimed by the property' % (name, kx))
-                continue
-            n += 1
-            qv = {'q': Poly.const(Fraction(kx).limit_denominator(1000))}
-            vl, vr = pl.subs(qv), pr.subs(qv)
-            what = 'vanishes-at-support-edge' if kx == rs else 'continuous-at-q=%g' % kx
-            chk.decide((vl - vr).is_zero(), 'sibling-algebra', '%s:%s' % (name, what), node=ms['kernel'], file=KER, func=name + '.kernel',
-                       detail_bad='kernel pieces disagree at q=%g: %s from below, %s from above' % (kx, vl, vr), detail_ok='%s on both sides' % vl)
+        for mi, m in enumerate(('kernel', 'dwdq', 'gradient_h')):
+            for kx in bps:
+                left = [pp for (a_, b_), pp in polys.items() if b_ == kx]
+                right = [pp for (a_, b_), pp in polys.items() if a_ == kx]
+                at = leaf_at_point(L[m], kx)
+                pa = to_poly(at[1]) if at is not None and at[1] is not None else None
+                pl = left[0][mi] if left else None
+                pr = right[0][mi] if right else None
+                if pa is None or (pl is None and pr is None):
+                    continue
+                if any(a.startswith('EXP{') for x in (pa, pl, pr) if x is not None for a in x.atoms()):
+                    if m == 'kernel' and kx == rs:
+                        chk.note('%s: the value at q=%g is the truncation of an exponential tail; continuity there is not claimed by the property' % (name, kx))
+                    continue
+                qv = {'q': Poly.const(kx)}
+                va = pa.subs(qv)
+                vl = pl.subs(qv) if pl is not None else None
+                vr = pr.subs(qv) if pr is not None else None
+                if kx == rs:
+                    if m != 'kernel':
+                        continue
+                    n += 1
+                    if vl is None or vr is None:
+                        n -= 1
+                        continue
+                    ok = (vl - vr).is_zero() and (va - vr).is_zero()
+                    chk.decide(ok, 'sibling-algebra', '%s:vanishes-at-support-edge' % name, node=ms['kernel'], file=KER, func=name + '.kernel',
+                               detail_bad='kernel pieces disagree at q=%g: %s from below, %s at the point, %s from above' % (kx, vl, va, vr), detail_ok='%s on both sides' % vl)
+                    continue
+                sides = [v for v in (vl, vr) if v is not None]
+                cont = all((v - va).is_zero() for v in sides)
+                if m == 'kernel' or not cont:
+                    # kernel: continuity at every knot.  dwdq / gradient_h: only reported when the *point* disagrees with both sides being equal
+                    # (a point that falls through to another branch); a genuine kink of the derivative is not judged
+                    if m != 'kernel' and len(sides) == 2 and not (sides[0] - sides[1]).is_zero():
+                        continue
+                    n += 1
+                    chk.decide(cont, 'sibling-algebra', '%s:%s-continuous-at-q=%g' % (name, m, float(kx)), node=ms[m], file=KER, func='%s.%s' % (name, m),
+                               detail_bad='%s at exactly q=%g is %s but the adjoining pieces give %s from below and %s from above: the point belongs to the wrong branch'
+                                          % (m, float(kx), va, vl, vr), detail_ok='%s at the knot and on both sides' % va)
+        # the r == 0 alternative of each method equals its formula at q = 0
+        for mi, m in enumerate(('kernel', 'dwdq', 'gradient_h')):
+            for dom, e, conds in R0[m]:
+                main = leaf_at_point(L[m], Fraction(0))
+                pm = to_poly(main[1]) if main is not None and main[1] is not None else None
+                p0 = to_poly(e) if e is not None else None
+                if pm is None or p0 is None:
+                    continue
+                n += 1
+                v0 = pm.subs({'q': Poly.const(0)})
+                chk.decide((p0.subs({'q': Poly.const(0)}) - v0).is_zero(), 'sibling-algebra', '%s:%s-at-r=0' % (name, m), node=ms[m], file=KER, func='%s.%s' % (name, m),
+                           detail_bad='for rij <= eps %s returns %s but its formula at q = 0 gives %s: coincident particles / the self term get a wrong value' % (m, p0, v0),
+                           detail_ok='the r = 0 alternative equals the formula at q = 0 (%s)' % v0)
     chk.floor('algebraic sibling obligations', n, 40)
 
 
@@ -805,19 +1088,21 @@ def gamma_half(m):
     return gamma_half(m - 2) * Poly.const(Fraction(m - 2, 2))
 
 
-def fac_of(cls, dim):
-    """self.fac as set by __init__ for this dim: a Laurent polynomial in sqrt(pi) (None when not of that form)"""
+def attrs_of(cls, dim):
+    """the numeric attributes __init__ sets for this dim, each a Laurent polynomial in sqrt(pi) (attributes of another form are left out)"""
     init = M.methods(cls).get('__init__')
-    consts = {'M_1_PI': pi_pow(-2), 'M_2_SQRTPI': pi_pow(-1) * Poly.const(2), 'pi': pi_pow(2)}
-    val = [None]
+    consts = {'M_1_PI': pi_pow(-2), 'M_2_SQRTPI': pi_pow(-1) * Poly.const(2), 'pi': pi_pow(2), 'dim': Poly.const(dim)}
+    vals = {}
 
     def ev(e):
-        if isinstance(e, ast.Constant) and isinstance(e.value, (int, float)):
+        if isinstance(e, ast.Constant) and isinstance(e.value, (int, float)) and not isinstance(e.value, bool):
             return Poly.const(Fraction(e.value).limit_denominator(10 ** 12))
         if isinstance(e, ast.Name) and e.id in consts:
             return consts[e.id]
-        if isinstance(e, ast.Attribute) and compact(e) == 'self.fac' and val[0] is not None:
-            return val[0]
+        if isinstance(e, ast.Attribute) and isinstance(e.value, ast.Name) and e.value.id == 'self' and e.attr in vals:
+            return vals[e.attr]
+        if isinstance(e, ast.UnaryOp) and isinstance(e.op, ast.USub):
+            return -ev(e.operand)
         if isinstance(e, ast.BinOp) and isinstance(e.op, (ast.Mult, ast.Div, ast.Add, ast.Sub)):
             a, b = ev(e.left), ev(e.right)
             if isinstance(e.op, ast.Mult):
@@ -840,12 +1125,28 @@ def fac_of(cls, dim):
         for s_ in stmts:
             if isinstance(s_, ast.If):
                 run(s_.body if truth(s_.test) else s_.orelse)
-            elif isinstance(s_, ast.Assign) and compact(s_.targets[0]) == 'self.fac':
-                val[0] = ev(s_.value)
-            elif isinstance(s_, ast.AugAssign) and compact(s_.target) == 'self.fac' and isinstance(s_.op, ast.Mult):
-                val[0] = val[0] * ev(s_.value)
+            elif isinstance(s_, ast.Assign) and isinstance(s_.targets[0], ast.Attribute) and compact(s_.targets[0].value) == 'self':
+                try:
+                    vals[s_.targets[0].attr] = ev(s_.value)
+                except ValueError:
+                    if s_.targets[0].attr == 'fac':
+                        raise
+                    vals.pop(s_.targets[0].attr, None)
+            elif isinstance(s_, ast.AugAssign) and isinstance(s_.target, ast.Attribute) and compact(s_.target.value) == 'self' and isinstance(s_.op, ast.Mult) \
+                    and s_.target.attr in vals:
+                try:
+                    vals[s_.target.attr] = vals[s_.target.attr] * ev(s_.value)
+                except ValueError:
+                    if s_.target.attr == 'fac':
+                        raise
+                    vals.pop(s_.target.attr, None)
     run(init.body)
-    return val[0]
+    return vals
+
+
+def fac_of(cls, dim):
+    """self.fac as set by __init__ for this dim: a Laurent polynomial in sqrt(pi) (None when not of that form)"""
+    return attrs_of(cls, dim).get('fac')
 
 
 def interval_of(qc, rs):
@@ -870,24 +1171,23 @@ def rule_normalisation(chk, pyk):
         ms = M.methods(cls)
         rs = radius_scale_of(cls)
         try:
-            kq = {}
-            for conds, env in pieces(ms['kernel']):
-                kq[qkey(conds)] = env.get('<return>')
+            kq = merged_pieces(qleaves(ms['kernel']))
         except (ValueError, KeyError) as e:
             chk.undecided('integrates-to-one', name, node=cls, file=KER, func=name, detail='piece extraction failed: %s' % e)
             continue
         for dim in supported_dims(M.find_class(M.py(KER), name)):
             inst = '%s[dim=%d]' % (name, dim)
             try:
-                fac = fac_of(cls, dim)
+                attrs = attrs_of(cls, dim)
+                fac = attrs.get('fac')
             except ValueError as e:
-                fac = None
+                fac, attrs = None, {}
             if fac is None:
                 chk.undecided('integrates-to-one', inst, node=cls, file=KER, func=name + '.__init__', detail='normalising factor is not a closed form in pi')
                 continue
             total = Poly()
             okform = True
-            for qc, e in kq.items():
+            for lo, hi, e in kq:
                 pk = to_poly(e) if e is not None else None
                 if pk is None:
                     okform = False
@@ -895,14 +1195,14 @@ def rule_normalisation(chk, pyk):
                 if pk.is_zero():
                     continue
                 g = pk.subs({'FAC': Poly.const(1)})
+                g = g.subs(dict(('SELF_' + k_, v_) for k_, v_ in attrs.items() if k_ not in ('fac', 'dim') and 'SELF_' + k_ in g.atoms()))
                 exps = [a for a in g.atoms() if a.startswith('EXP{')]
-                lo, hi = interval_of(qc, rs)
                 if not exps:
                     if hi is None or set(g.atoms()) - set(['q']):
                         okform = False
                         break
                     # sum_k c_k q^(k+d-1) integrated exactly between the rational knots
-                    a_, b_ = Fraction(lo).limit_denominator(1000), Fraction(hi).limit_denominator(1000)
+                    a_, b_ = lo, hi
                     for mono, c in g.t.items():
                         k = dict(mono).get('q', 0) + dim
                         total = total + Poly.const(c * (b_ ** k - a_ ** k) / k)
@@ -1013,15 +1313,13 @@ def rule_monotone(chk, pyk):
         ms = M.methods(cls)
         rs = radius_scale_of(cls)
         try:
-            dq = dict((qkey(c), e.get('<return>')) for c, e in pieces(ms['dwdq']) if not any(t.startswith('rij') and not v for t, v in c))
+            dq = merged_pieces(qleaves(ms['dwdq']))
         except (ValueError, KeyError) as e:
             chk.undecided('non-increasing', name, node=cls, file=KER, func=name, detail='piece extraction failed: %s' % e)
             continue
-        for qc, e in sorted(dq.items()):
+        for lo, hi, e in dq:
             pd = to_poly(e) if e is not None else None
-            lo, hi = interval_of(qc, rs)
-            lab = ','.join('%s%s' % ('' if v else 'not ', t) for t, v in qc) or 'all q'
-            inst = '%s@%s' % (name, lab)
+            inst = '%s@%s' % (name, iv_label(lo, hi))
             if pd is None:
                 chk.undecided('non-increasing', inst, node=ms['dwdq'], file=KER, func=name + '.dwdq', detail='piece not polynomial')
                 continue
@@ -1035,7 +1333,7 @@ def rule_monotone(chk, pyk):
             if u is None or hi is None:
                 chk.undecided('non-increasing', inst, node=ms['dwdq'], file=KER, func=name + '.dwdq', detail='derivative piece is not a polynomial in q on a bounded interval')
                 continue
-            a_, b_ = Fraction(lo).limit_denominator(1000), Fraction(hi).limit_denominator(1000)
+            a_, b_ = lo, hi
             k = roots_in(u, a_, b_)
             mid = ueval(u, (a_ + b_) / 2)
             n += 1
